@@ -1,18 +1,31 @@
 (* PROOFS: PrContentDef.step_content (the CONTENT of files over whole API histories, C01 / C02)
    for the operations on an open file that move data or meta-data:
      Read / IoRead     the answer is the slice of the bytes mem_view shows at the cursor; only
-                       the cursor moves (content_Read, content_IoRead)
-   Write / IoWrite are in section 3 below, Flush / CloseFile in PrContentWrite2.v.
+                       the cursor moves; both views and the directories are the same lists
+     Write / IoWrite   the bytes of the target in mem_view become the splice of the (clipped)
+                       data at the cursor, mtime = the clock value, archive bit; every other
+                       position of both views and every directory slot unchanged
+     Flush / CloseFile dirty: disk_view' at the slot = mem_view there before the call, exactly
+                       one 32-byte slot of one directory changes; clean: nothing written;
+                       CloseFile removes the handle
+   Main theorems: content_Read, content_IoRead, content_Write, content_IoWrite, content_Flush,
+   content_CloseFile : step_content fsz vid (..) - all arguments, every outcome, no extra
+   hypothesis.  No case of read_content / write_content / flush_content had to be changed.
 
    0  lists, look-ups, views under a map of the node list
    1  a call that changes ONE record of the file table and nothing on the medium
-   2  Read, IoRead
+   2  Read, IoRead (cw_read_run: PrRw.mgr_read_spec)
    3  Write, IoWrite: every outcome (Ok, DiskFull after a stored prefix, NotEnoughSpace,
-      ReadOnly refusal, stale handle, empty IoWrite) *)
+      ReadOnly refusal, stale handle, empty IoWrite); PrWrite.mgr_write_spec, the tree
+      map (chain_upd ..) T of PrGlobalWrite.gw_write_post (cw_write_obs, cw_mgr_write)
+   4  Flush, CloseFile: the run of a dirty flush with the exact new disk and the tree
+      forest_replace p (NFile (decoded slot) chain) T (cw_flush_run, record cw_flushed), the
+      observation after it (cwf_rel), the record leaving the table (cw_drop_obs)
+   5  an example: the theorems applied to a write / flush / close run from gx_state *)
 From Coq Require Import NArith ZArith List Bool Lia Arith ZifyClasses ZifyInst Zify FMapPositive Permutation.
 From SdFs Require Import FsTypes FsBase FsFat FsMgr FsLemmas PrBase PrFat PrAlloc PrDir PrSeek PrAllocEffect
   PrRw PrWrite PrFileSeq PrMulti PrEntry PrChain PrCount PrWf PrOpenClose PrGlobalDef PrGlobalWrite PrContentDef.
-From SdFs Require PrModes PrHandles PrCrash PrBounds PrOrder PrFault2 PrGlobal.
+From SdFs Require PrModes PrHandles PrCrash PrBounds PrOrder PrFault2.
 Import ListNotations.
 Open Scope N_scope.
 Local Arguments N.mul : simpl never.
@@ -461,7 +474,795 @@ Section CwWrite.
     destruct (mp_id _ _ _ _ _ _ _ _ _ _ _ _ _ _ Hpost) as (_ & _ & I3 & I4).
     unfold hinfo_of. rewrite cw_key', I3, I4, (mp_off _ _ _ _ _ _ _ _ _ _ _ _ _ _ Hpost). reflexivity.
   Qed.
+
+  (* all of it *)
+  Lemma cw_write_obs :
+    exists a', observes fsz vid s' a' /\
+      let a := obs_at s v bl T in
+      exists dfv dfv', vget p (ob_mem a) = Some (mem_fv s v f) /\
+        vget p (ob_disk a) = Some dfv /\ vget p (ob_disk a') = Some dfv' /\ meta_same dfv dfv' /\
+        others_same p a a' /\ dirs_same a a' /\
+        vget p (ob_mem a') =
+          Some (let fv := mem_fv s v f in
+                let fv1 := set_fv_bytes fv (spec_write (fv_bytes fv) (f_offset f) stored) in
+                if b then set_fv_attr (set_fv_mtime fv1 (stamp_of (s_clock s))) (N.lor (fv_attr fv) A_ARCHIVE) else fv1) /\
+        handle_set h (mk_hinfo p (f_mode f) (f_offset f + N.of_nat (length stored)) true) a a'.
+  Proof.
+    exists (obs_at s' v' bl T'). split; [exact (observes_at _ _ _ _ _ _ _ _ cw_inv')|].
+    cbv zeta. cbn [obs_at ob_mem ob_disk ob_dirs ob_handles]. fold d d'.
+    destruct cw_target as (Hm & dfv & dfv' & D1 & D2 & D3). exists dfv, dfv'.
+    split; [exact (vget_mem_open fsz vid s vi v bl rch T Hinv f Hfin)|].
+    split; [exact D1|]. split; [exact D2|]. split; [exact D3|].
+    split; [intros q Hq; exact (cw_others q Hq)|].
+    split; [intros c; exact (f_equal (dget c) cw_dirs)|].
+    split; [rewrite Hm, cw_target_fv; reflexivity|].
+    intros k. rewrite <- cw_hinfo'. exact (cw_handles k).
+  Qed.
 End CwWrite.
+
+(* ---- mgr_write, every outcome ---- *)
+(* write_content below the look-up of the handle, in terms of the outcome of mgr_write *)
+Definition cw_write_rel (h : N) (hi : hinfo) (data : list N) (clock : N) (o : outcome unit) (a a' : obs) : Prop :=
+  if negb (writable (hi_mode hi)) then o = Err ReadOnlyErr /\ same_obs a a' else
+  let p := hi_pos hi in
+  exists fv dfv dfv', vget p (ob_mem a) = Some fv /\
+    vget p (ob_disk a) = Some dfv /\ vget p (ob_disk a') = Some dfv' /\ meta_same dfv dfv' /\
+    others_same p a a' /\ dirs_same a a' /\
+    let clip := clip_write (hi_off hi) data in
+    ((o = Ok tt /\
+      vget p (ob_mem a') =
+        Some (set_fv_attr (set_fv_mtime (set_fv_bytes fv (spec_write (fv_bytes fv) (hi_off hi) clip))
+                                        (stamp_of clock))
+                          (N.lor (fv_attr fv) A_ARCHIVE)) /\
+      handle_set h (set_hi_dirty (set_hi_off hi (hi_off hi + N.of_nat (length clip))) true) a a')
+     \/
+     (o = Err DiskFull /\ exists k, (k < length clip)%nat /\
+      vget p (ob_mem a') = Some (set_fv_bytes fv (spec_write (fv_bytes fv) (hi_off hi) (firstn k clip))) /\
+      handle_set h (set_hi_dirty (set_hi_off hi (hi_off hi + N.of_nat k)) true) a a')
+     \/
+     (o = Err NotEnoughSpace /\ fv_bytes fv = [] /\
+      vget p (ob_mem a') = Some fv /\ handle_set h (set_hi_dirty hi true) a a')).
+
+Definition cw_result (io : bool) (data : list N) (o : outcome unit) : outcome res :=
+  match o with Ok _ => Ok (write_result io data) | Err e => Err e | Panic => Panic | OutOfFuel => OutOfFuel end.
+
+Lemma cw_rel_content io h hi data clock o a a' :
+  hget h (ob_handles a) = Some hi -> (io = true -> data <> []) ->
+  cw_write_rel h hi data clock o a a' -> write_content io h data clock (cw_result io data o) a a'.
+Proof.
+  intros Hh Hio Hrel.
+  assert (G : match hget h (ob_handles a) with
+              | None => cw_result io data o = Err BadHandle /\ same_obs a a'
+              | Some hi =>
+                  if negb (writable (hi_mode hi)) then cw_result io data o = Err ReadOnlyErr /\ same_obs a a' else
+                  let p := hi_pos hi in
+                  exists fv dfv dfv', vget p (ob_mem a) = Some fv /\
+                    vget p (ob_disk a) = Some dfv /\ vget p (ob_disk a') = Some dfv' /\ meta_same dfv dfv' /\
+                    others_same p a a' /\ dirs_same a a' /\
+                    let clip := clip_write (hi_off hi) data in
+                    ((cw_result io data o = Ok (write_result io data) /\
+                      vget p (ob_mem a') =
+                        Some (set_fv_attr (set_fv_mtime (set_fv_bytes fv (spec_write (fv_bytes fv) (hi_off hi) clip))
+                                                        (stamp_of clock))
+                                          (N.lor (fv_attr fv) A_ARCHIVE)) /\
+                      handle_set h (set_hi_dirty (set_hi_off hi (hi_off hi + N.of_nat (length clip))) true) a a')
+                     \/
+                     (cw_result io data o = Err DiskFull /\ exists k, (k < length clip)%nat /\
+                      vget p (ob_mem a') = Some (set_fv_bytes fv (spec_write (fv_bytes fv) (hi_off hi) (firstn k clip))) /\
+                      handle_set h (set_hi_dirty (set_hi_off hi (hi_off hi + N.of_nat k)) true) a a')
+                     \/
+                     (cw_result io data o = Err NotEnoughSpace /\ fv_bytes fv = [] /\
+                      vget p (ob_mem a') = Some fv /\ handle_set h (set_hi_dirty hi true) a a'))
+              end).
+  { rewrite Hh. unfold cw_write_rel in Hrel. destruct (negb (writable (hi_mode hi))).
+    - destruct Hrel as (-> & Hsame). split; [reflexivity|exact Hsame].
+    - cbv zeta in Hrel. cbv zeta. destruct Hrel as (fv & dfv & dfv' & H1 & H2 & H3 & H4 & H5 & H6 & Hc).
+      exists fv, dfv, dfv'. repeat (split; [assumption|]).
+      destruct Hc as [(-> & A)|[(-> & A)|(-> & A)]]; [left|right; left|right; right]; (split; [reflexivity|exact A]). }
+  unfold write_content. destruct io; [|exact G]. destruct data as [|x t]; [exfalso; exact (Hio eq_refl eq_refl)|exact G].
+Qed.
+
+Lemma cw_mgr_write fsz vid s vi v bl rch T h data fi f o s' :
+  fs_inv_at fsz vid s vi v bl rch T -> PrSeek.resolves s h fi f -> mgr_write h data s = (o, s') ->
+  exists a', observes fsz vid s' a' /\ cw_write_rel h (hinfo_of f) data (s_clock s) o (obs_at s v bl T) a'.
+Proof.
+  intros Hat Hr Hrun.
+  assert (Hinv : fs_inv fsz vid s) by (exists vi, v, bl, rch, T; exact Hat).
+  destruct (gw_mgr_write fsz vid s h data fi f Hinv Hr o s' Hrun) as (_ & _ & Hinv' & _).
+  pose proof (gw_mw_pre fsz vid s vi v bl rch T Hat h fi f Hr) as Hmw.
+  pose proof Hr as (_ & _ & Hfi). pose proof (nth_error_In _ _ Hfi) as Hfin.
+  pose proof (ofile_of _ _ _ _ _ _ _ _ Hat f Hfin) as O.
+  unfold cw_write_rel. cbn [hinfo_of hi_mode hi_pos hi_off]. unfold writable. rewrite negb_involutive.
+  destruct (mode_eqb (f_mode f) ReadOnly) eqn:Hmode.
+  - pose proof Hmw as [Hl Hh _ Hvol _ _ _ _ _ _ _ _].
+    rewrite (mgr_write_read_only h data s fi f vi Hl Hh Hfi Hvol Hmode) in Hrun. injection Hrun as <- <-.
+    exists (obs_at s v bl T). split; [exact (observes_at _ _ _ _ _ _ _ _ Hat)|]. split; reflexivity.
+  - destruct (mgr_write_spec fsz h data s fi f vi v _ Hmw Hmode) as (o2 & s2 & Hrun2 & Hcases).
+    rewrite Hrun in Hrun2. injection Hrun2 as <- <-.
+    change (firstn (N.to_nat (N.min (N.of_nat (length data)) (MAX_FILE_SIZE - f_offset f))) data)
+      with (clip_write (f_offset f) data) in Hcases.
+    destruct (gw_mgr_write_wf fsz h data s fi f vi v _ (heads v T ++ pend_of s v) o s' Hmw Hmode
+                (di_wf _ _ _ _ _ _ (fi_disk _ _ _ _ _ _ _ _ Hat)) (ofile_in_hs _ _ _ _ _ _ _ _ Hat f Hfin) Hrun)
+      as (HW1 & HW2).
+    assert (HW2' : forall b stored f' v' ch',
+              mw_post fsz h s fi f vi v (fchain (s_disk s) v f) b stored s' f' v' ch' -> o <> Err NotEnoughSpace ->
+              e_cluster (f_entry f) < 2 ->
+                ~ In (e_cluster (f_entry f')) (heads v T ++ pend_of s v) /\
+                fat_wf (s_disk s') v (e_cluster (f_entry f') :: heads v T ++ pend_of s v)).
+    { intros b stored f' v' ch' P Hno Hlt. destruct (HW2 Hlt) as [E|(c & f'' & Hni & Wc & Hf'' & Ec)]; [contradiction|].
+      rewrite (mp_files _ _ _ _ _ _ _ _ _ _ _ _ _ _ P) in Hf''.
+      rewrite (PrRw.nth_error_list_set_same _ _ _ _ Hfi) in Hf''. injection Hf'' as <-. rewrite Ec. split; assumption. }
+    cbv zeta.
+    destruct Hcases as [(-> & f' & v' & ch' & P)|[(-> & f' & v' & ch' & k & Hk & P & _)|(-> & Hc0 & _ & Hd & Hfiles & Hvols & Htab & Hpre')]].
+    + destruct (cw_write_obs fsz vid s vi v bl rch T Hat h fi f Hr true _ s' f' v' ch' P HW1
+                  (HW2' _ _ _ _ _ P ltac:(discriminate))) as (a' & Ho' & dfv & dfv' & H1 & H2 & H3 & H4 & H5 & H6 & H7 & H8).
+      exists a'. split; [exact Ho'|]. exists (mem_fv s v f), dfv, dfv'. repeat (split; [assumption|]).
+      left. split; [reflexivity|]. split; [exact H7|exact H8].
+    + assert (Hkl : length (firstn k (clip_write (f_offset f) data)) = k) by (rewrite firstn_length; lia).
+      destruct (cw_write_obs fsz vid s vi v bl rch T Hat h fi f Hr false _ s' f' v' ch' P HW1
+                  (HW2' _ _ _ _ _ P ltac:(discriminate))) as (a' & Ho' & dfv & dfv' & H1 & H2 & H3 & H4 & H5 & H6 & H7 & H8).
+      exists a'. split; [exact Ho'|]. exists (mem_fv s v f), dfv, dfv'. repeat (split; [assumption|]).
+      right. left. split; [reflexivity|]. exists k. split; [exact Hk|]. split; [exact H7|].
+      rewrite Hkl in H8. exact H8.
+    + destruct (cw_record_step fsz vid s s' vi v bl rch T h fi f (set_f_dirty f true) Hat Hinv' Hr Hd Hvols Hfiles eq_refl eq_refl)
+        as (a' & Ho' & M1 & M2 & M3 & M4).
+      destruct (vget_disk_open fsz vid s vi v bl rch T Hat f Hfin) as (e0 & ch0 & _ & _ & _ & Hdv).
+      exists a'. split; [exact Ho'|]. exists (mem_fv s v f), (disk_fv (s_disk s) v (NFile e0 ch0)), (disk_fv (s_disk s) v (NFile e0 ch0)).
+      split; [exact (vget_mem_open fsz vid s vi v bl rch T Hat f Hfin)|].
+      split; [exact Hdv|]. split; [rewrite M2; exact Hdv|]. split; [repeat split|].
+      split; [intros q _; rewrite M1, M2; split; reflexivity|]. split; [intros c; rewrite M3; reflexivity|].
+      right. right. split; [reflexivity|]. split.
+      * unfold mem_fv, fv_of, fchain. cbn [fv_bytes]. apply N.ltb_lt in Hc0. rewrite Hc0. apply firstn_nil.
+      * split; [rewrite M1; exact (vget_mem_open fsz vid s vi v bl rch T Hat f Hfin)|exact M4].
+Qed.
+
+(* Write / IoWrite (non-empty) on any handle *)
+Lemma cw_write_case fsz vid s vi v bl rch T io h data o s' :
+  fs_inv_at fsz vid s vi v bl rch T -> (io = true -> data <> []) -> mgr_write h data s = (o, s') ->
+  exists a', observes fsz vid s' a' /\ write_content io h data (s_clock s) (cw_result io data o) (obs_at s v bl T) a'.
+Proof.
+  intros Hat Hio Hrun. pose proof (proj1 (fi_vol _ _ _ _ _ _ _ _ Hat)) as Hl.
+  destruct (file_handle_cases s h Hl) as [(fi & f & Hr)|Hno].
+  - destruct (cw_mgr_write fsz vid s vi v bl rch T h data fi f o s' Hat Hr Hrun) as (a' & Ho' & Hrel).
+    exists a'. split; [exact Ho'|]. apply (cw_rel_content io h (hinfo_of f)); [|exact Hio|exact Hrel].
+    exact (hget_resolves s h fi f Hr).
+  - assert (E : mgr_write h data s = (Err BadHandle, s)).
+    { unfold mgr_write. rewrite (PrWrite.locked_free' _ _ Hl). apply bind_err. apply PrHandles.get_file_by_id_stale. exact Hno. }
+    rewrite E in Hrun. injection Hrun as <- <-. exists (obs_at s v bl T). split; [exact (observes_at _ _ _ _ _ _ _ _ Hat)|].
+    unfold write_content. cbn [obs_at ob_handles cw_result]. rewrite (hget_stale s h Hno).
+    destruct io; [destruct data; [exfalso; exact (Hio eq_refl eq_refl)|]|]; split; reflexivity.
+Qed.
+
+Theorem content_Write fsz vid h data : step_content fsz vid (Write h data).
+Proof.
+  intros s r s' a Hinv _ _ Hs Ho. cbn [content_rel]. destruct Ho as (vi & v & bl & rch & T & Hat & ->).
+  cbn [step] in Hs. unfold lift, bind in Hs. destruct (mgr_write h data s) as [o s1] eqn:Hrun.
+  destruct (cw_write_case fsz vid s vi v bl rch T false h data o s1 Hat ltac:(discriminate) Hrun) as (a' & Ho' & Hc).
+  assert (E : r = cw_result false data o /\ s' = s1).
+  { destruct o as [u|e| |]; injection Hs as <- <-; split; reflexivity. }
+  destruct E as (-> & ->). exists a'. split; [exact Ho'|exact Hc].
+Qed.
+
+Theorem content_IoWrite fsz vid h data : step_content fsz vid (IoWrite h data).
+Proof.
+  intros s r s' a Hinv _ _ Hs Ho. cbn [content_rel]. cbn [step] in Hs. unfold io_write in Hs.
+  destruct data as [|x t] eqn:Edata.
+  { unfold lift, bind, ret in Hs. injection Hs as <- <-. exists a. split; [exact Ho|]. split; reflexivity. }
+  rewrite <- Edata in *. assert (Hne : data <> []) by (rewrite Edata; discriminate). clear x t Edata.
+  destruct Ho as (vi & v & bl & rch & T & Hat & ->).
+  unfold lift, bind in Hs. destruct (mgr_write h data s) as [o s1] eqn:Hrun.
+  destruct (cw_write_case fsz vid s vi v bl rch T true h data o s1 Hat (fun _ => Hne) Hrun) as (a' & Ho' & Hc).
+  assert (E : r = cw_result true data o /\ s' = s1).
+  { destruct o as [u|e| |]; injection Hs as <- <-; split; reflexivity. }
+  destruct E as (-> & ->). exists a'. split; [exact Ho'|exact Hc].
+Qed.
+
+(* ================================================================== 4. Flush, CloseFile *)
+(* ---- directory blocks lie apart from the clusters of files ---- *)
+Lemma cw_In_tslots_intro b blk : forall n i j, i <= j -> j < i + N.of_nat n ->
+  In (blk, j * 32, slot b j) (tslots_from n b blk i).
+Proof.
+  induction n as [|n IH]; intros i j H1 H2; [lia|]. cbn [tslots_from].
+  destruct (N.eq_dec i j) as [->|Hne]; [left; reflexivity|right]. apply IH; lia.
+Qed.
+
+Lemma cw_slot_listed d bld blk i : In blk bld -> i < 16 -> In (blk, i * 32) (map fst (slots_of d bld)).
+Proof.
+  intros Hb Hi. apply in_map_iff. exists (blk, i * 32, slot (disk_get d blk) i). split; [reflexivity|].
+  unfold slots_of. apply in_flat_map. exists blk. split; [exact Hb|]. unfold block_slots.
+  apply cw_In_tslots_intro; [lia|change (N.of_nat 16) with 16; lia].
+Qed.
+
+Lemma cw_slots_block d bld t : In t (slots_of d bld) -> In (fst (fst t)) bld.
+Proof.
+  intros H. unfold slots_of in H. apply in_flat_map in H. destruct H as (b0 & Hb & Ht).
+  unfold block_slots in Ht. apply In_tslots_from in Ht. destruct Ht as (j & _ & _ & ->). exact Hb.
+Qed.
+
+Section CwApart.
+  Variables (fsz vid : N) (s : st) (vi : nat) (v : vol) (bl rch : list N) (T : list node).
+  Hypothesis Hinv : fs_inv_at fsz vid s vi v bl rch T.
+  Let d := s_disk s.
+  Let HD := fi_disk _ _ _ _ _ _ _ _ Hinv.
+  Let W := di_wf _ _ _ _ _ _ HD.
+
+  Definition cw_dir_head (h0 : N) : Prop :=
+    In h0 (root_heads v) \/ (exists e ch kids, In (NDir e ch kids) (all_nodes T) /\ e_cluster e = h0).
+
+  (* a chain that shares no cluster with any directory chain holds no directory block *)
+  Lemma cw_dir_block_apart j ch1 : In j (tree_dir_blocks v bl T) -> Forall (fun c => 2 <= c) ch1 ->
+    (forall h0, cw_dir_head h0 -> disjoint (chain_l d v h0) ch1) -> ~ In j (data_blocks v ch1).
+  Proof.
+    intros Hj R Hdis Hin. rewrite Forall_forall in R. unfold data_blocks in Hin. apply in_flat_map in Hin.
+    destruct Hin as (y & Hy & Hjy).
+    assert (K : forall h0 dch, cw_dir_head h0 -> chain_at d v h0 dch -> In j (data_blocks v dch) -> False).
+    { intros h0 dch Hh Hch Hjd. unfold data_blocks in Hjd. apply in_flat_map in Hjd. destruct Hjd as (c0 & Hc0 & Hjc).
+      destruct (chain_at_mem d v h0 dch c0 Hch Hc0) as (C1 & _).
+      destruct (N.eq_dec c0 y) as [->|Hne].
+      - apply (Hdis h0 Hh y); [rewrite (chain_l_at _ _ _ _ Hch); exact Hc0|exact Hy].
+      - exact (cluster_blocks_apart v c0 y j j Hne C1 (R y Hy) Hjc Hjy eq_refl). }
+    apply gw_tree_dir_blocks_iff in Hj. destruct Hj as [Hj|(e & dch & kids & Hn & Hj)].
+    - pose proof (di_root _ _ _ _ _ _ HD) as Hroot. unfold root_dir in Hroot. destruct (v_fat32 v) eqn:E32.
+      + destruct Hroot as (Hch & Ebl). rewrite Ebl in Hj.
+        apply (K (v_root_cluster v) rch); [left; unfold root_heads; rewrite E32; left; reflexivity|exact Hch|exact Hj].
+      + destruct Hroot as (_ & Ebl). rewrite Ebl in Hj.
+        exact (root16_no_cluster _ _ _ _ _ _ _ _ Hinv j y E32 Hj (R y Hy) Hjy).
+    - destruct (dir_node_chain _ _ _ _ _ _ HD e dch kids Hn) as (Hch & _).
+      apply (K (e_cluster e) dch); [right; exists e, dch, kids; split; [exact Hn|reflexivity]|exact Hch|exact Hj].
+  Qed.
+
+  (* the chain of an open file *)
+  Lemma cw_open_chain_range g : In g (s_files s) -> Forall (fun c => 2 <= c) (fchain d v g).
+  Proof.
+    intros Hg. destruct (of_chain _ _ _ _ (ofile_of _ _ _ _ _ _ _ _ Hinv g Hg)) as [(_ & (fu & A2) & _)|(_ & A2 & _)].
+    - pose proof (chain_of_range _ _ _ _ _ A2) as R. rewrite Forall_forall in *. intros c Hc. exact (proj1 (R c Hc)).
+    - fold d in A2. rewrite A2. constructor.
+  Qed.
+
+  Lemma cw_open_chain_blocks g j : In g (s_files s) -> In j (tree_dir_blocks v bl T) -> ~ In j (data_blocks v (fchain d v g)).
+  Proof.
+    intros Hg Hj. apply (cw_dir_block_apart j _ Hj (cw_open_chain_range g Hg)).
+    intros h0 Hh. exact (dir_chain_apart _ _ _ _ _ _ _ _ Hinv h0 g Hh Hg).
+  Qed.
+
+  (* the chain of a file node *)
+  Lemma cw_node_chain_range e ch1 : In (NFile e ch1) (all_nodes T) -> Forall (fun c => 2 <= c) ch1.
+  Proof.
+    intros Hn. destruct (cw_node_chain fsz vid s vi v bl rch T Hinv e ch1 Hn) as [(_ & fu & A2)|(_ & ->)]; [|constructor].
+    pose proof (chain_of_range _ _ _ _ _ A2) as R. rewrite Forall_forall in *. intros c Hc. exact (proj1 (R c Hc)).
+  Qed.
+
+  Lemma cw_node_chain_blocks e ch1 j : In (NFile e ch1) (all_nodes T) -> In j (tree_dir_blocks v bl T) ->
+    ~ In j (data_blocks v ch1).
+  Proof.
+    intros Hn Hj. apply (cw_dir_block_apart j _ Hj (cw_node_chain_range e ch1 Hn)).
+    intros h0 Hh x X1 X2.
+    destruct (cw_node_chain fsz vid s vi v bl rch T Hinv e ch1 Hn) as [(A1 & fu & A2)|(_ & E0)]; [|rewrite E0 in X2; destruct X2].
+    pose proof (cw_own_head e ch1 A1) as Hown.
+    assert (X2' : In x (chain_l d v (e_cluster e)))
+      by (unfold d; rewrite (chain_l_at _ _ _ _ (chain_at_any _ _ _ _ _ A2)); exact X2).
+    destruct (heads_nodup v T (pend_of s v) (wf_heads _ _ _ W)) as (N1 & N2 & N3 & N4).
+    assert (Hhs : In h0 (heads v T ++ pend_of s v)).
+    { apply in_or_app. left. unfold heads. apply in_or_app.
+      destruct Hh as [Hh|(e2 & ch2 & k2 & Hn2 & <-)]; [left; exact Hh|right].
+      apply (own_head_in T _ _ Hn2). left. reflexivity. }
+    pose proof (wf_l_disj d v _ _ _ x W Hhs (cw_node_in_hs s v T e ch1 Hn A1) X1 X2') as E.
+    destruct Hh as [Hh|(e2 & ch2 & k2 & Hn2 & E2)].
+    - apply (proj1 (N3 h0 Hh)). rewrite E. exact (own_head_in T _ _ Hn Hown).
+    - assert (Hown2 : In (e_cluster e) (own_head (NDir e2 ch2 k2))) by (cbn [own_head]; left; congruence).
+      pose proof (flat_map_owner own_head _ N1 _ _ _ Hn2 Hn Hown2 Hown) as Eq. discriminate Eq.
+  Qed.
+
+  (* the directory that holds a directory block *)
+  Lemma cw_block_dir j : In j (tree_dir_blocks v bl T) -> exists dc bld chd, is_dir_of v bl rch T dc bld chd /\ In j bld.
+  Proof.
+    intros Hj. apply gw_tree_dir_blocks_iff in Hj. destruct Hj as [Hj|(e & dch & kids & Hn & Hj)].
+    - exists CL_ROOT, bl, rch. split; [left; repeat split|exact Hj].
+    - exists (e_cluster e), (data_blocks v dch), dch. split; [right; exists e, kids; repeat split; exact Hn|exact Hj].
+  Qed.
+
+  Lemma cw_dir_blocks_in dc bld chd j : is_dir_of v bl rch T dc bld chd -> In j bld -> In j (tree_dir_blocks v bl T).
+  Proof.
+    intros [(_ & -> & _)|(e & kids & Hn & _ & ->)] Hj; apply gw_tree_dir_blocks_iff; [left; exact Hj|right].
+    exists e, chd, kids. split; assumption.
+  Qed.
+End CwApart.
+
+(* what a flush does to the observation (p = the slot of the file, dirty = the flag of its record) *)
+Definition cw_flush_rel (dirty : bool) (p : spos) (a a1 : obs) : Prop :=
+  others_same p a a1 /\ ob_handles a1 = ob_handles a /\
+  (if dirty then vget p (ob_disk a1) = vget p (ob_mem a) /\ vget p (ob_mem a) <> None /\ dirs_slot false p a a1
+   else vget p (ob_disk a1) = vget p (ob_disk a) /\ dirs_same a a1) /\
+  vget p (ob_mem a1) = vget p (ob_mem a).
+
+Lemma cw_dirs_slot_eq g p a a1 a2 : ob_dirs a2 = ob_dirs a1 -> dirs_slot g p a a1 -> dirs_slot g p a a2.
+Proof. intros E H. unfold dirs_slot in *. rewrite E. exact H. Qed.
+
+(* ---- the run of flush_file on a dirty record, with the exact new disk and the new tree ---- *)
+Section CwFlush.
+  Variables (fsz vid : N) (s : st) (vi : nat) (v : vol) (bl rch : list N) (T : list node).
+  Hypothesis Hinv : fs_inv_at fsz vid s vi v bl rch T.
+  Variables (h : N) (fi : nat) (f : fileinfo).
+  Hypothesis Hr : PrSeek.resolves s h fi f.
+
+  Let d := s_disk s.
+  Let e := f_entry f.
+  Let blk := e_block (f_entry f).
+  Let p := slot_key f.
+
+  (* the entry a reader decodes from the slot after the flush, and the node it stands for *)
+  Definition cw_new_entry : dirent := t_entry (v_fat32 v) (blk, e_offset e, ser_bytes (v_fat32 v) e).
+  Definition cw_new_node : node := NFile cw_new_entry (fchain d v f).
+
+  Record cw_flushed (s' : st) : Prop := mk_cw_flushed {
+    cf_run : flush_file h s = (Ok tt, s');
+    cf_mgr : same_mgr s s';
+    cf_pend : is_pending (s_disk s') v f = false;
+    cf_inv : fs_inv_at fsz vid s' vi v bl rch (forest_replace p cw_new_node T);
+    cf_blk : In blk (tree_dir_blocks v bl T);
+    cf_idx : exists i, i < 16 /\ e_offset e = i * 32;
+    cf_node : exists e0 ch0, In (NFile e0 ch0) (all_nodes T) /\ node_pos (NFile e0 ch0) = p;
+    cf_fat : forall j, fat_area v j -> disk_get (s_disk s') j = disk_get d j;
+    (* the slots of every set of directory blocks: only slot p changes *)
+    cf_slots : forall bld, (forall j, In j bld -> In j (tree_dir_blocks v bl T)) ->
+               slots_of (s_disk s') bld = map (upd_slot (fst p) (snd p) (ser_bytes (v_fat32 v) e)) (slots_of d bld);
+    (* every block of a data cluster other than the block of the slot is kept *)
+    cf_data : forall c j, 2 <= c -> In j (cluster_blocks v c) -> j <> blk -> disk_get (s_disk s') j = disk_get d j;
+    cf_fields : e_name cw_new_entry = e_name e /\ e_attr cw_new_entry = e_attr e /\ e_size cw_new_entry = e_size e /\
+                e_ctime cw_new_entry = ts_readback (e_ctime e) /\ e_mtime cw_new_entry = ts_readback (e_mtime e);
+    cf_pos : node_pos cw_new_node = p
+  }.
+
+  Theorem cw_flush_run : f_dirty f = true -> exists s', cw_flushed s'.
+  Proof.
+    intros Hdirty.
+    destruct (gw_vol_facts _ _ _ _ _ _ _ _ Hinv) as (Hl & Hpre & Hfit & Hspc & Hwf & Hvid & Hnf & Hc & Hvi & L & Hvok).
+    destruct (gw_file_facts _ _ _ _ _ _ _ _ h fi f Hinv Hr) as (O & Hfvol).
+    pose proof Hr as (_ & Hfind & Hfi). pose proof (nth_error_In _ _ Hfi) as Hfin.
+    destruct (gw_file_slot _ _ _ _ _ _ _ _ Hinv f Hfin)
+      as (e0 & ch0 & i & Hn0 & Hpos0 & En & Ec & Hi & Eo & Hblk & Hns & Ee0 & Hch0).
+    fold blk e d in Hpos0, En, Ec, Eo, Hblk, Hns, Ee0, Hch0.
+    pose proof (of_slot _ _ _ _ O) as [Sct Smt Sname Soff Snfat]. fold blk e in Sct, Smt, Sname, Soff, Snfat.
+    destruct (of_attr _ _ _ _ O) as (Adir & Alfn). fold e in Adir, Alfn.
+    pose proof (of_size _ _ _ _ O) as Osize. pose proof (of_u32 _ _ _ _ O) as O32. fold e d in Osize, O32.
+    pose proof (fi_disk _ _ _ _ _ _ _ _ Hinv) as HD. fold d in HD.
+    set (old := slot (disk_get d blk) i) in *.
+    set (new := ser_bytes (v_fat32 v) e).
+    set (n0 := NFile e0 ch0) in *.
+    assert (Ep : p = (blk, i * 32)) by (unfold p, slot_key; fold blk e; rewrite Eo; reflexivity).
+    (* the run *)
+    destruct (info_step_exists s vi v Hnf Hc Hvi Hwf) as (s1 & Hinfo & Hwf1).
+    assert (Hnp : e_size e = 0 \/ e_cluster e <> 0).
+    { destruct (of_chain _ _ _ _ O) as [(A1 & _)|(A1 & A2 & _)].
+      - fold e in A1. right. clear - A1. lia.
+      - fold e d in A2. left. rewrite A2 in Osize. cbn [length] in Osize. clear - Osize. lia. }
+    destruct (flush_file_spec s h fi f vi v s1 Hr Hdirty (conj Hfvol Hvi) Hinfo Hnp Sct Smt Soff)
+      as (s' & Hrun & Hd' & Hnew & Hfr' & Hc' & Hnf' & Hm' & _).
+    fold blk e in Hd', Hnew, Hfr'.
+    (* the same run through PrGlobalWrite: the invariant and the pending flag *)
+    destruct (gw_flush_dirty fsz vid s vi v bl rch T Hinv h fi f Hr Hdirty) as (s'' & i'' & Hrun'' & Hat'' & _ & Hpend'' & _).
+    rewrite Hrun in Hrun''. injection Hrun'' as <-.
+    (* the information sector is neither a FAT sector, nor a directory block, nor a block of a data cluster *)
+    assert (F1 : (forall j, fat_area v j -> disk_get (s_disk s1) j = disk_get d j) /\
+                 (forall j, In j (tree_dir_blocks v bl T) -> disk_get (s_disk s1) j = disk_get d j) /\
+                 (forall c j, 2 <= c -> In j (cluster_blocks v c) -> disk_get (s_disk s1) j = disk_get d j)).
+    { destruct Hinfo as (_ & _ & _ & _ & Hfr1 & Hsame). destruct (v_fat32 v) eqn:E32.
+      - destruct (fi_info _ _ _ _ _ _ _ _ Hinv E32) as (I1 & I2). split; [|split].
+        + intros j Hj. apply Hfr1. intros ->. exact (I1 Hj).
+        + intros j Hj. apply Hfr1. intros ->.
+          destruct (gw_dir_block_kind _ _ _ _ _ _ _ _ Hinv _ Hj) as [(E & _)|(c & C1 & _ & Hin)]; [congruence|exact (I2 c C1 Hin)].
+        + intros c j C1 Hj. apply Hfr1. intros ->. exact (I2 c C1 Hj).
+      - rewrite (Hsame (or_introl eq_refl)). repeat split; reflexivity. }
+    destruct F1 as (F1a & F1b & F1c).
+    pose proof (disk_inv_frame d (s_disk s1) v bl rch T (pend_of s v) F1a F1b HD) as HD1.
+    (* the slot write *)
+    assert (Eold : disk_get (s_disk s1) blk = disk_get d blk) by (apply F1b; exact Hblk).
+    assert (Hal : e_offset e mod 32 = 0) by (rewrite Eo; apply N.mod_mul; discriminate).
+    assert (Ei : e_offset e / 32 = i) by (rewrite Eo; apply N.div_mul; discriminate).
+    destruct (put_entry_slots (v_fat32 v) e (disk_get (s_disk s1) blk) (Hwf1 blk) Sname Soff Hal)
+      as (Hlen' & Hslot & Hoth & _ & _).
+    rewrite Ei in Hslot, Hoth. fold new in Hslot.
+    assert (Hsw : slot_write (s_disk s1) (s_disk s') blk i new).
+    { split; [exact Hfr'|]. rewrite Hnew. split; [exact Hslot|exact Hoth]. }
+    assert (Hfat' : forall j, fat_area v j -> disk_get (s_disk s') j = disk_get d j).
+    { intros j Hj. rewrite (slot_write_fat _ _ v blk i new Hsw Snfat j Hj). exact (F1a j Hj). }
+    pose proof (ser_bytes_layout (v_fat32 v) e Sname) as Lay. cbv zeta in Lay. fold new in Lay.
+    destruct Lay as (L0 & L11 & _ & _ & _ & _ & _ & _ & _ & Lb).
+    assert (Ename0 : e_name e0 = firstn 11 old) by (rewrite Ee0; reflexivity).
+    assert (Hb0 : get8 new 0 = get8 old 0).
+    { rewrite Lb, <- En, Ename0. apply get8_firstn. }
+    assert (Hname : t_name (blk, i * 32, new) = t_name (blk, i * 32, old)).
+    { unfold t_name. cbn [snd]. rewrite L0, <- En, Ename0. reflexivity. }
+    assert (Hend : is_end new = is_end old) by (unfold is_end; rewrite Hb0; reflexivity).
+    assert (Hnsnew : node_slot (blk, i * 32, new) = true).
+    { unfold node_slot, short_slot, dot_slot in *. rewrite Hname.
+      apply andb_true_iff in Hns. destruct Hns as (Hs1 & Hs2). apply andb_true_iff in Hs1. destruct Hs1 as (Hv1 & _).
+      apply andb_true_iff. split; [|exact Hs2]. apply andb_true_iff. split.
+      - unfold t_is_valid, is_valid, is_end in *. cbn [snd] in *. rewrite Hb0. exact Hv1.
+      - unfold t_attr. cbn [snd]. rewrite L11, Alfn. reflexivity. }
+    (* the new node *)
+    pose proof (gw_readback_fields (v_fat32 v) e blk (i * 32) Sname Adir O32 (gw_cluster_fits _ _ _ _ _ _ _ _ Hinv h fi f Hr)) as RB.
+    cbv zeta in RB.
+    assert (Ene : cw_new_entry = t_entry (v_fat32 v) (blk, i * 32, ser_bytes (v_fat32 v) e))
+      by (unfold cw_new_entry; rewrite Eo; reflexivity).
+    rewrite <- Ene in RB. destruct RB as (R1 & R2 & R3 & R4 & R5 & R6).
+    set (e' := cw_new_entry) in *. set (n' := cw_new_node).
+    assert (Hn' : node_rep (s_disk s') v n' (blk, i * 32, new)).
+    { apply node_rep_file. fold e'. split; [exact Ene|]. split; [rewrite R2; exact Adir|].
+      unfold fchain. fold e d. destruct (N.ltb_spec (e_cluster e) 2) as [Hlt|Hge].
+      - right. rewrite R4. split; [exact Hlt|reflexivity].
+      - left. rewrite R4. split; [exact Hge|].
+        destruct (of_chain _ _ _ _ O) as [(_ & (fu & A2) & _)|(A1 & _)]; [fold e d in A2|fold e in A1; clear - A1 Hge; lia].
+        exists fu. rewrite (chain_of_ext d (s_disk s') v Hfat'), A2.
+        rewrite (chain_l_at _ _ _ _ (chain_at_any _ _ _ _ _ A2)). reflexivity. }
+    assert (Hp0 : node_pos n0 = (blk, i * 32)) by (rewrite Hpos0, Eo; reflexivity).
+    (* the tree of the new disk *)
+    assert (Htree : tree_rep (s_disk s') v bl (forest_replace (blk, i * 32) n' T)).
+    { apply (tree_rep_replace (s_disk s1) (s_disk s') v blk i new n' Hsw Snfat); rewrite ?Eold; try assumption.
+      exact (di_tree _ _ _ _ _ _ HD1). }
+    assert (Hroot : root_dir (s_disk s') v bl rch) by exact (root_dir_frame d (s_disk s') v bl rch Hfat' (di_root _ _ _ _ _ _ HD)).
+    assert (Hinv' : fs_inv fsz vid s') by (eexists _, _, _, _, _; exact Hat'').
+    destruct (cw_inv_at_tree fsz vid s' v bl rch _ Hinv'
+                ltac:(rewrite (proj1 Hm'); exact (fi_single _ _ _ _ _ _ _ _ Hinv)) Hroot Htree) as (vi' & Hat').
+    assert (Evi : vi' = vi).
+    { destruct (gw_vol_facts _ _ _ _ _ _ _ _ Hat') as (_ & _ & _ & _ & _ & _ & _ & _ & Hvi' & _).
+      rewrite (proj1 Hm'), (fi_single _ _ _ _ _ _ _ _ Hinv) in Hvi'. rewrite (fi_single _ _ _ _ _ _ _ _ Hinv) in Hvi.
+      destruct vi' as [|[|k]], vi as [|[|k2]]; try discriminate; reflexivity. }
+    subst vi'. rewrite <- Ep in Hat'.
+    exists s'. constructor.
+    - exact Hrun.
+    - exact Hm'.
+    - exact Hpend''.
+    - exact Hat'.
+    - exact Hblk.
+    - exists i. split; assumption.
+    - exists e0, ch0. split; [exact Hn0|]. rewrite Ep. exact Hp0.
+    - exact Hfat'.
+    - intros bld Hsub. rewrite Ep. cbn [fst snd]. rewrite (slots_of_upd (s_disk s1) (s_disk s') blk i new bld Hsw).
+      f_equal. apply slots_of_ext. intros j Hj. exact (F1b j (Hsub j Hj)).
+    - intros c j C1 Hj Hne. rewrite (Hfr' j Hne). exact (F1c c j C1 Hj).
+    - split; [exact R1|]. split; [exact R2|]. split; [exact R3|].
+      destruct (C02_codec_roundtrip_fields (v_fat32 v) e blk (e_offset e) Sname) as (_ & _ & _ & A4 & A5 & _).
+      split; [exact A5|exact A4].
+    - rewrite Ep. unfold node_pos. cbn [node_entry cw_new_node]. fold e'. rewrite R5, R6. reflexivity.
+  Qed.
+
+  (* ---- the observation after the flush ---- *)
+  Variable s' : st.
+  Hypothesis Hfl : cw_flushed s'.
+  Let d' := s_disk s'.
+  Let T' := forest_replace p cw_new_node T.
+  Let new := ser_bytes (v_fat32 v) e.
+  Let Hat' : fs_inv_at fsz vid s' vi v bl rch T' := cf_inv s' Hfl.
+  Let Hfi : nth_error (s_files s) fi = Some f := proj2 (proj2 Hr).
+  Let Hfin : In f (s_files s) := nth_error_In _ _ Hfi.
+
+  Lemma cwf_files : s_files s' = s_files s.
+  Proof. exact (proj1 (proj2 (proj2 (cf_mgr s' Hfl)))). Qed.
+
+  Lemma cwf_fchain g : fchain d' v g = fchain d v g.
+  Proof. unfold fchain, chain_l. rewrite (chain_of_ext d d' v (cf_fat s' Hfl)). reflexivity. Qed.
+
+  Lemma cwf_bytes ch1 : Forall (fun c => 2 <= c) ch1 -> ~ In blk (data_blocks v ch1) ->
+    file_bytes d' v ch1 = file_bytes d v ch1.
+  Proof.
+    intros R Hnb. rewrite Forall_forall in R. apply PrRw.file_bytes_frame. intros c j Hc Hj.
+    apply (cf_data s' Hfl c j (R c Hc) Hj). intros ->. apply Hnb. unfold data_blocks. apply in_flat_map.
+    exists c. split; assumption.
+  Qed.
+
+  Lemma cwf_open g : In g (s_files s) -> mem_fv s' v g = mem_fv s v g.
+  Proof.
+    intros Hg. unfold mem_fv. fold d'. rewrite cwf_fchain. unfold d.
+    rewrite (cwf_bytes _ (cw_open_chain_range fsz vid s vi v bl rch T Hinv g Hg)
+               (cw_open_chain_blocks fsz vid s vi v bl rch T Hinv g blk Hg (cf_blk s' Hfl))). reflexivity.
+  Qed.
+
+  Lemma cwf_node e1 ch1 : In (NFile e1 ch1) (all_nodes T) -> disk_fv d' v (NFile e1 ch1) = disk_fv d v (NFile e1 ch1).
+  Proof.
+    intros Hn. unfold disk_fv. cbn [node_entry node_chain].
+    rewrite (cwf_bytes _ (cw_node_chain_range fsz vid s vi v bl rch T Hinv e1 ch1 Hn)
+               (cw_node_chain_blocks fsz vid s vi v bl rch T Hinv e1 ch1 blk Hn (cf_blk s' Hfl))). reflexivity.
+  Qed.
+
+  (* the node list of the new tree *)
+  Lemma cwf_uniq m : In m (all_nodes T) -> node_pos m = p -> exists e0 ch0, m = NFile e0 ch0.
+  Proof.
+    intros Hm Em. destruct (cf_node s' Hfl) as (e0 & ch0 & Hn0 & Ep0). exists e0, ch0.
+    apply (pos_unique (all_nodes T) m _ (di_pos _ _ _ _ _ _ (fi_disk _ _ _ _ _ _ _ _ Hinv)) Hm Hn0). congruence.
+  Qed.
+
+  Lemma cwf_nodes' : all_nodes T' = map (node_replace p cw_new_node) (all_nodes T).
+  Proof.
+    apply (all_nodes_replace p cw_new_node eq_refl T). intros m Hm Em.
+    destruct (cwf_uniq m Hm Em) as (e0 & ch0 & ->). reflexivity.
+  Qed.
+
+  Lemma cwf_kind n : In n (all_nodes T) ->
+    node_pos (node_replace p cw_new_node n) = node_pos n /\ node_is_dir (node_replace p cw_new_node n) = node_is_dir n.
+  Proof.
+    intros Hn. split; [exact (node_pos_replace p cw_new_node (cf_pos s' Hfl) n)|].
+    destruct (pos_eqb (node_pos n) p) eqn:E.
+    - apply pos_eqb_eq in E. destruct (cwf_uniq n Hn E) as (e0 & ch0 & ->).
+      rewrite (node_replace_hit p cw_new_node _ E). reflexivity.
+    - destruct n; cbn [node_replace]; rewrite E; reflexivity.
+  Qed.
+
+  Lemma cwf_miss e1 ch1 q : node_pos (NFile e1 ch1) = q -> q <> p -> node_replace p cw_new_node (NFile e1 ch1) = NFile e1 ch1.
+  Proof. intros E Hq. apply node_replace_miss_file. rewrite E. exact Hq. Qed.
+
+  (* every other position of both views *)
+  Lemma cwf_others q : q <> p ->
+    vget q (mem_view s' v T') = vget q (mem_view s v T) /\ vget q (disk_view d' v T') = vget q (disk_view d v T).
+  Proof.
+    intros Hq. split.
+    - unfold mem_view. rewrite cwf_nodes'. apply cw_vget_view_map; [exact cwf_kind|].
+      intros e1 ch1 Hn E. rewrite (cwf_miss e1 ch1 q E Hq). unfold mem_item, open_at. rewrite cwf_files.
+      destruct (find (fun g => pos_eqb (slot_key g) (node_pos (NFile e1 ch1))) (s_files s)) as [g|] eqn:Ef.
+      + destruct (find_some _ _ Ef) as (Hg & _). exact (cwf_open g Hg).
+      + exact (cwf_node e1 ch1 Hn).
+    - unfold disk_view. rewrite cwf_nodes'. apply cw_vget_view_map; [exact cwf_kind|].
+      intros e1 ch1 Hn E. rewrite (cwf_miss e1 ch1 q E Hq). exact (cwf_node e1 ch1 Hn).
+  Qed.
+
+  (* the flushed file: the medium now shows what the API showed (and still shows) *)
+  Lemma cwf_new_fv : disk_fv d' v cw_new_node = mem_fv s v f.
+  Proof.
+    destruct (cf_fields s' Hfl) as (R1 & R2 & R3 & R4 & R5).
+    unfold disk_fv, cw_new_node, mem_fv, fv_of. cbn [node_entry node_chain]. fold e.
+    rewrite R1, R2, R3, R4, R5, !ts_readback_idem. unfold d.
+    rewrite (cwf_bytes _ (cw_open_chain_range fsz vid s vi v bl rch T Hinv f Hfin)
+               (cw_open_chain_blocks fsz vid s vi v bl rch T Hinv f blk Hfin (cf_blk s' Hfl))). reflexivity.
+  Qed.
+
+  Lemma cwf_target :
+    vget p (disk_view d' v T') = Some (mem_fv s v f) /\ vget p (mem_view s' v T') = Some (mem_fv s v f) /\
+    vget p (mem_view s v T) = Some (mem_fv s v f).
+  Proof.
+    split; [|split].
+    - destruct (cf_node s' Hfl) as (e0 & ch0 & Hn0 & Ep0).
+      assert (Hn' : In cw_new_node (all_nodes T')).
+      { rewrite cwf_nodes'. apply in_map_iff. exists (NFile e0 ch0).
+        split; [exact (node_replace_hit p cw_new_node _ Ep0)|exact Hn0]. }
+      rewrite <- cwf_new_fv, <- (cf_pos s' Hfl).
+      exact (vget_disk_node fsz vid s' vi v bl rch T' Hat' _ _ Hn').
+    - rewrite <- (cwf_open f Hfin).
+      assert (Hf' : In f (s_files s')) by (rewrite cwf_files; exact Hfin).
+      exact (vget_mem_open fsz vid s' vi v bl rch T' Hat' f Hf').
+    - exact (vget_mem_open fsz vid s vi v bl rch T Hinv f Hfin).
+  Qed.
+
+  (* the directories: exactly the slot p changes *)
+  Lemma cwf_dir_view :
+    dir_view d' v bl T' = map (fun x => (fst x, map (upd_slot (fst p) (snd p) new) (snd x))) (dir_view d v bl T).
+  Proof.
+    unfold dir_view. cbn [map fst snd]. f_equal.
+    - f_equal. apply (cf_slots s' Hfl). intros j Hj. unfold tree_dir_blocks. apply in_or_app. left. exact Hj.
+    - rewrite cwf_nodes'. apply cw_dir_items_map. intros n Hn. destruct n as [e1 ch1|e1 ch1 k1].
+      + exact (proj2 (cwf_kind _ Hn)).
+      + split.
+        * exists (map (node_replace p cw_new_node) k1). apply node_replace_miss_dir. intros E.
+          destruct (cwf_uniq _ Hn E) as (e0 & ch0 & X). discriminate X.
+        * apply (cf_slots s' Hfl). intros j Hj. apply gw_tree_dir_blocks_iff. right. exists e1, ch1, k1. split; assumption.
+  Qed.
+
+  Lemma cwf_dirs : dirs_slot false p (obs_at s v bl T) (obs_at s' v bl T').
+  Proof.
+    unfold dirs_slot. cbn [obs_at ob_dirs]. fold d d'.
+    destruct (cw_block_dir v bl rch T blk (cf_blk s' Hfl)) as (dc & bld & chd & Hdir & Hb).
+    destruct (cf_idx s' Hfl) as (i & Hi & Eo).
+    pose proof (dget_dir_view fsz vid s vi v bl rch T Hinv d dc bld chd Hdir) as Hdg.
+    exists dc, (slots_of d bld), [], new. rewrite app_nil_r.
+    split; [exact Hdg|]. split.
+    { unfold p, slot_key. fold blk e. rewrite Eo. exact (cw_slot_listed d bld blk i Hb Hi). }
+    split; [constructor|]. split; [reflexivity|].
+    rewrite cwf_dir_view. split.
+    - rewrite cw_dget_map_snd, Hdg. reflexivity.
+    - intros c Hc. rewrite cw_dget_map_snd. destruct (dget c (dir_view d v bl T)) as [slc|] eqn:Ec; [|reflexivity].
+      cbn [option_map]. f_equal.
+      destruct (dget_dir_view_inv v bl rch T d c slc Ec) as (bldc & chdc & Hdirc & ->).
+      rewrite <- (map_id (slots_of d bldc)) at 2. apply map_ext_in. intros t Ht.
+      apply upd_slot_miss. intros E. apply Hc.
+      apply (dirs_apart d v bl rch T (pend_of s v) (v_nblocks v) fsz (fi_disk _ _ _ _ _ _ _ _ Hinv)
+               (fi_layout _ _ _ _ _ _ _ _ Hinv) c dc bldc bld chdc chd blk Hdirc Hdir); [|exact Hb].
+      pose proof (cw_slots_block d bldc t Ht) as X. rewrite E in X. exact X.
+  Qed.
+
+  Theorem cwf_rel : cw_flush_rel true p (obs_at s v bl T) (obs_at s' v bl T').
+  Proof.
+    destruct cwf_target as (T1 & T2 & T3).
+    split; [intros q Hq; exact (cwf_others q Hq)|]. split; [cbn [obs_at ob_handles]; unfold handles_of; rewrite cwf_files; reflexivity|].
+    cbn [obs_at ob_disk ob_mem]. fold d d'. split; [|rewrite T2, T3; reflexivity].
+    split; [rewrite T1, T3; reflexivity|]. split; [rewrite T3; discriminate|exact cwf_dirs].
+  Qed.
+End CwFlush.
+
+(* ---- flush_file on a handle that names a record, dirty or not ---- *)
+Lemma cw_flush_effect fsz vid s vi v bl rch T h fi f :
+  fs_inv_at fsz vid s vi v bl rch T -> PrSeek.resolves s h fi f ->
+  exists s1 T1, flush_file h s = (Ok tt, s1) /\ same_mgr s s1 /\ fs_inv_at fsz vid s1 vi v bl rch T1 /\
+    is_pending (s_disk s1) v f = false /\ cw_flush_rel (f_dirty f) (slot_key f) (obs_at s v bl T) (obs_at s1 v bl T1).
+Proof.
+  intros Hat Hr. destruct (f_dirty f) eqn:Hd.
+  - destruct (cw_flush_run fsz vid s vi v bl rch T Hat h fi f Hr Hd) as (s1 & Hfl).
+    exists s1, (forest_replace (slot_key f) (cw_new_node s v f) T).
+    split; [exact (cf_run _ _ _ _ _ _ _ _ _ _ _ Hfl)|]. split; [exact (cf_mgr _ _ _ _ _ _ _ _ _ _ _ Hfl)|].
+    split; [exact (cf_inv _ _ _ _ _ _ _ _ _ _ _ Hfl)|]. split; [exact (cf_pend _ _ _ _ _ _ _ _ _ _ _ Hfl)|].
+    exact (cwf_rel fsz vid s vi v bl rch T Hat h fi f Hr s1 Hfl).
+  - exists s, T. split; [exact (flush_file_clean s h fi f Hr Hd)|]. split; [apply same_mgr_refl|]. split; [exact Hat|].
+    pose proof (ofile_of _ _ _ _ _ _ _ _ Hat f (nth_error_In _ _ (proj2 (proj2 Hr)))) as O.
+    split.
+    + destruct (is_pending (s_disk s) v f) eqn:Ep; [|reflexivity]. rewrite (of_dirty _ _ _ _ O Ep) in Hd. discriminate Hd.
+    + split; [intros q _; split; reflexivity|]. split; [reflexivity|]. split; [|reflexivity].
+      split; [reflexivity|intros c; reflexivity].
+Qed.
+
+(* ---- the record of a flushed file leaves the table ---- *)
+Lemma cw_find_key_drop (l : list fileinfo) fi f q : NoDup (map slot_key l) -> nth_error l fi = Some f ->
+  q <> slot_key f ->
+  find (fun g => pos_eqb (slot_key g) q) (swap_remove l fi) = find (fun g => pos_eqb (slot_key g) q) l.
+Proof.
+  intros Hnd Hfi Hq.
+  assert (Hnd' : NoDup (map slot_key (swap_remove l fi)))
+    by (rewrite PrHandles.map_swap_remove; apply PrHandles.swap_remove_NoDup; exact Hnd).
+  destruct (find (fun g => pos_eqb (slot_key g) q) l) as [g|] eqn:Ef.
+  - destruct (find_some _ _ Ef) as (Hg & Hk). apply pos_eqb_eq in Hk.
+    assert (Hne : g <> f) by (intros ->; apply Hq; symmetry; exact Hk).
+    pose proof (PrFault2.swap_remove_keeps_others l fi g f Hfi Hg Hne) as Hg'.
+    rewrite <- Hk. exact (find_key_nodup slot_key _ g Hnd' Hg').
+  - apply find_key_none. intros g Hg Hk.
+    pose proof (find_none _ _ Ef g (swap_remove_subset _ _ _ Hg)) as X. cbv beta in X.
+    rewrite Hk, pos_eqb_refl in X. discriminate X.
+Qed.
+
+Lemma cw_find_id_nodup (l : list fileinfo) : forall g, NoDup (map f_id l) -> In g l ->
+  find (fun x => f_id x =? f_id g) l = Some g.
+Proof.
+  induction l as [|a l IH]; intros g Hnd Hin; [destruct Hin|]. cbn [map] in Hnd.
+  inversion Hnd as [|? ? Ha Hl]; subst. cbn [find]. destruct Hin as [->|Hin].
+  - rewrite N.eqb_refl. reflexivity.
+  - destruct (N.eqb_spec (f_id a) (f_id g)) as [E|E]; [|exact (IH g Hl Hin)].
+    exfalso. apply Ha. rewrite E. apply in_map. exact Hin.
+Qed.
+
+Lemma cw_hget_drop (l : list fileinfo) fi f k : NoDup (map f_id l) -> nth_error l fi = Some f ->
+  hget k (map (fun g => (f_id g, hinfo_of g)) (swap_remove l fi)) =
+  if k =? f_id f then None else hget k (map (fun g => (f_id g, hinfo_of g)) l).
+Proof.
+  intros Hnd Hfi. rewrite !hget_handles_of.
+  assert (Hnd' : NoDup (map f_id (swap_remove l fi))) by (apply PrHandles.swap_remove_NoDup_map; exact Hnd).
+  destruct (N.eqb_spec k (f_id f)) as [->|Hne].
+  - destruct (find (fun g => f_id g =? f_id f) (swap_remove l fi)) as [g|] eqn:Ef; [|reflexivity].
+    destruct (find_some _ _ Ef) as (Hg & Hk). apply N.eqb_eq in Hk. exfalso.
+    apply (PrHandles.swap_remove_gone f_id l fi f Hnd Hfi). rewrite <- Hk. apply in_map. exact Hg.
+  - destruct (find (fun g => f_id g =? k) l) as [g|] eqn:Ef.
+    + destruct (find_some _ _ Ef) as (Hg & Hk). apply N.eqb_eq in Hk.
+      assert (Hgf : g <> f) by (intros ->; apply Hne; symmetry; exact Hk).
+      pose proof (PrFault2.swap_remove_keeps_others l fi g f Hfi Hg Hgf) as Hg'.
+      rewrite <- Hk, (cw_find_id_nodup _ g Hnd' Hg'). reflexivity.
+    + destruct (find (fun g => f_id g =? k) (swap_remove l fi)) as [g|] eqn:Ef2; [|reflexivity].
+      destruct (find_some _ _ Ef2) as (Hg & Hk).
+      pose proof (find_none _ _ Ef g (swap_remove_subset _ _ _ Hg)) as X. cbv beta in X. rewrite Hk in X. discriminate X.
+Qed.
+
+Lemma cw_drop_obs fsz vid s1 vi v bl rch T1 h fi f :
+  fs_inv_at fsz vid s1 vi v bl rch T1 -> PrSeek.resolves s1 h fi f -> is_pending (s_disk s1) v f = false ->
+  let s2 := set_s_files s1 (swap_remove (s_files s1) fi) in
+  let a1 := obs_at s1 v bl T1 in
+  let a2 := obs_at s2 v bl T1 in
+  observes fsz vid s2 a2 /\ ob_disk a2 = ob_disk a1 /\ ob_dirs a2 = ob_dirs a1 /\
+  (forall q, q <> slot_key f -> vget q (ob_mem a2) = vget q (ob_mem a1)) /\
+  vget (slot_key f) (ob_mem a2) = vget (slot_key f) (ob_disk a1) /\ handle_del h a1 a2.
+Proof.
+  intros Hat Hr Hp s2 a1 a2. pose proof (proj2 (proj2 Hr)) as Hfi. pose proof (nth_error_In _ _ Hfi) as Hfin.
+  pose proof (gw_drop_file fsz vid s1 vi v bl rch T1 fi f Hat Hfi Hp) as Hat2. fold s2 in Hat2.
+  split; [exact (observes_at _ _ _ _ _ _ _ _ Hat2)|]. split; [reflexivity|]. split; [reflexivity|]. split; [|split].
+  - intros q Hq. unfold a1, a2. cbn [obs_at ob_mem]. unfold mem_view.
+    rewrite <- (map_id (all_nodes T1)) at 1. apply cw_vget_view_map; [intros n _; split; reflexivity|].
+    intros e ch Hn Ep. unfold mem_item, open_at. rewrite Ep.
+    change (s_files s2) with (swap_remove (s_files s1) fi).
+    rewrite (cw_find_key_drop (s_files s1) fi f q (fi_fslots _ _ _ _ _ _ _ _ Hat) Hfi Hq). reflexivity.
+  - destruct (cw_open_node fsz vid s1 vi v bl rch T1 Hat f Hfin) as (e0 & ch0 & Hn0 & Ep0).
+    unfold a1, a2. cbn [obs_at ob_mem ob_disk]. rewrite <- Ep0.
+    rewrite (vget_disk_node fsz vid s1 vi v bl rch T1 Hat e0 ch0 Hn0).
+    apply (vget_mem_closed fsz vid s2 vi v bl rch T1 Hat2 e0 ch0 Hn0).
+    intros g Hg E. rewrite Ep0 in E. change (s_files s2) with (swap_remove (s_files s1) fi) in Hg.
+    apply (PrHandles.swap_remove_gone slot_key (s_files s1) fi f (fi_fslots _ _ _ _ _ _ _ _ Hat) Hfi).
+    rewrite <- E. apply in_map. exact Hg.
+  - intros k. unfold a1, a2. cbn [obs_at ob_handles]. unfold handles_of.
+    change (s_files s2) with (swap_remove (s_files s1) fi).
+    rewrite (cw_hget_drop (s_files s1) fi f k (fi_fids _ _ _ _ _ _ _ _ Hat) Hfi), (resolves_id s1 h fi f Hr). reflexivity.
+Qed.
+
+Theorem content_Flush fsz vid h : step_content fsz vid (Flush h).
+Proof.
+  intros s r s' a Hinv _ _ Hs Ho. pose proof (fs_inv_lock fsz vid s Hinv) as Hl.
+  destruct Ho as (vi & v & bl & rch & T & Hat & ->). cbn [content_rel]. unfold flush_content. cbn [obs_at ob_handles].
+  destruct (file_handle_cases s h Hl) as [(fi & f & Hr)|Hno].
+  - destruct (cw_flush_effect fsz vid s vi v bl rch T h fi f Hat Hr) as (s1 & T1 & Hrun & Hm & Hat1 & Hp & R1 & R2 & R3 & R4).
+    cbn [step] in Hs. rewrite (lift_ok' _ _ _ _ _ Hrun) in Hs. injection Hs as <- <-.
+    exists (obs_at s1 v bl T1). split; [exact (observes_at _ _ _ _ _ _ _ _ Hat1)|].
+    rewrite (hget_resolves s h fi f Hr). cbn [hinfo_of hi_pos hi_dirty].
+    split; [reflexivity|]. split; [exact R1|]. split; [intros k; unfold hget; rewrite R2; reflexivity|].
+    split; [exact R3|exact R4].
+  - destruct (PrHandles.C08_stale_file_handle h s Hl Hno) as (_ & _ & E & _).
+    rewrite E in Hs. injection Hs as <- <-. exists (obs_at s v bl T). split; [exact (observes_at _ _ _ _ _ _ _ _ Hat)|].
+    rewrite (hget_stale s h Hno). split; reflexivity.
+Qed.
+
+Theorem content_CloseFile fsz vid h : step_content fsz vid (CloseFile h).
+Proof.
+  intros s r s' a Hinv _ _ Hs Ho. pose proof (fs_inv_lock fsz vid s Hinv) as Hl.
+  destruct Ho as (vi & v & bl & rch & T & Hat & ->). cbn [content_rel]. unfold flush_content. cbn [obs_at ob_handles].
+  destruct (file_handle_cases s h Hl) as [(fi & f & Hr)|Hno].
+  - destruct (cw_flush_effect fsz vid s vi v bl rch T h fi f Hat Hr) as (s1 & T1 & Hrun & Hm & Hat1 & Hp & R1 & R2 & R3 & R4).
+    cbn [step] in Hs. rewrite (lift_ok' _ _ _ _ _ (close_file_after_flush s h fi f s1 Hr Hrun Hm)) in Hs. injection Hs as <- <-.
+    assert (Hr1 : PrSeek.resolves s1 h fi f).
+    { destruct Hr as (A & B & C). destruct Hm as (_ & _ & Hfiles & _ & _ & Hlock & _).
+      split; [rewrite Hlock; exact A|]. rewrite Hfiles. split; assumption. }
+    destruct (cw_drop_obs fsz vid s1 vi v bl rch T1 h fi f Hat1 Hr1 Hp) as (Ho2 & D & Dr & M & Mp & Hd).
+    eexists. split; [exact Ho2|].
+    rewrite (hget_resolves s h fi f Hr). cbn [hinfo_of hi_pos hi_dirty].
+    split; [reflexivity|]. split.
+    { intros q Hq. destruct (R1 q Hq) as (X1 & X2). split; [rewrite (M q Hq); exact X1|rewrite D; exact X2]. }
+    split.
+    { intros k. rewrite (Hd k). destruct (k =? h); [reflexivity|]. unfold hget. rewrite R2. reflexivity. }
+    split; [|rewrite Mp, D; reflexivity].
+    destruct (f_dirty f).
+    + destruct R3 as (A & B & C). split; [rewrite D; exact A|]. split; [exact B|exact (cw_dirs_slot_eq _ _ _ _ _ Dr C)].
+    + destruct R3 as (A & B). split; [rewrite D; exact A|]. intros c. rewrite Dr. exact (B c).
+  - destruct (PrHandles.C08_stale_file_handle h s Hl Hno) as (_ & _ & _ & E & _).
+    rewrite E in Hs. injection Hs as <- <-. exists (obs_at s v bl T). split; [exact (observes_at _ _ _ _ _ _ _ _ Hat)|].
+    rewrite (hget_stale s h Hno). split; reflexivity.
+Qed.
+
+
+(* ================================================================== 5. the hypotheses are satisfiable *)
+(* PrGlobalDef's example state (file B open on handle 7, five bytes, a pending chain): a write,
+   a flush and a close.  The invariant and id_fresh hold of every state of the run, so the
+   theorems apply and relate the four observations. *)
+Lemma cw_id_fresh_of s ids nx : PrHandles.all_ids s = ids -> s_next_id s = nx ->
+  forallb (fun x => negb (x =? nx)) ids = true -> id_fresh s.
+Proof.
+  intros E1 E2 H x Hx. rewrite E1 in Hx. rewrite E2. rewrite forallb_forall in H.
+  specialize (H x Hx). apply negb_true_iff in H. apply N.eqb_neq. exact H.
+Qed.
+
+Example cw_example :
+  exists s1 s2 s3 a0 a1 a2 a3,
+    step (Write 7 [1; 2; 3]) gx_state = (Ok RUnit, s1) /\ step (Flush 7) s1 = (Ok RUnit, s2) /\
+    step (CloseFile 7) s2 = (Ok RUnit, s3) /\
+    observes 1 0 gx_state a0 /\ observes 1 0 s1 a1 /\ observes 1 0 s2 a2 /\ observes 1 0 s3 a3 /\
+    write_content false 7 [1; 2; 3] 0 (Ok RUnit) a0 a1 /\
+    flush_content false 7 (Ok RUnit) a1 a2 /\ flush_content true 7 (Ok RUnit) a2 a3.
+Proof.
+  set (s1 := snd (step (Write 7 [1; 2; 3]) gx_state)).
+  set (s2 := snd (step (Flush 7) s1)).
+  set (s3 := snd (step (CloseFile 7) s2)).
+  assert (E1 : step (Write 7 [1; 2; 3]) gx_state = (Ok RUnit, s1)) by (vm_compute; reflexivity).
+  assert (E2 : step (Flush 7) s1 = (Ok RUnit, s2)) by (vm_compute; reflexivity).
+  assert (E3 : step (CloseFile 7) s2 = (Ok RUnit, s3)) by (vm_compute; reflexivity).
+  assert (F0 : id_fresh gx_state).
+  { apply (cw_id_fresh_of gx_state [0; 5; 9; 7] 10); vm_compute; reflexivity. }
+  assert (F1 : id_fresh s1).
+  { apply (cw_id_fresh_of s1 [0; 5; 9; 7] 10); vm_compute; reflexivity. }
+  assert (F2 : id_fresh s2).
+  { apply (cw_id_fresh_of s2 [0; 5; 9; 7] 10); vm_compute; reflexivity. }
+  pose proof (proj1 fs_inv_example) as I0.
+  pose proof (proj1 (proj2 (proj2 (step_ok_Write 1 0 7 [1; 2; 3] gx_state _ s1 I0 F0 (conj (conj I I) I) E1)))) as I1.
+  pose proof (proj1 (proj2 (proj2 (step_ok_Flush 1 0 7 s1 _ s2 I1 F1 (conj (conj I I) I) E2)))) as I2.
+  destruct (observes_exists 1 0 gx_state I0) as (a0 & O0).
+  destruct (content_Write 1 0 7 [1; 2; 3] gx_state _ s1 a0 I0 F0 (conj (conj I I) I) E1 O0) as (a1 & O1 & C1).
+  destruct (content_Flush 1 0 7 s1 _ s2 a1 I1 F1 (conj (conj I I) I) E2 O1) as (a2 & O2 & C2).
+  destruct (content_CloseFile 1 0 7 s2 _ s3 a2 I2 F2 (conj (conj I I) I) E3 O2) as (a3 & O3 & C3).
+  exists s1, s2, s3, a0, a1, a2, a3. cbn [content_rel] in C1, C2, C3.
+  change (s_clock gx_state) with 0 in C1. repeat (split; [assumption|]). exact C3.
+Qed.
 
 Print Assumptions content_Read.
 Print Assumptions content_IoRead.
+Print Assumptions content_Write.
+Print Assumptions content_IoWrite.
+Print Assumptions content_Flush.
+Print Assumptions content_CloseFile.
+Print Assumptions cw_example.
